@@ -137,7 +137,7 @@ def run(tier, seed):
                  "boundary x IM x border x latch; SZX magic/machine id/chunk id x declared size (exact, short, zero, over, 0xFFFFFFF0) x content "
                  "variants, single chunks and pairs; TAP length fields against missing bytes; SCR sizes; ROM page counts/sizes; VTX id/stereo/player "
                  "frequency/size field/string count/body; gzip valid/bad magic/truncated/bad CRC/empty/bomb; (b) six well-formed files through an "
-                 "asset that fails with Err or Ok(0) at request k for k = 0..39, and with 1-byte reads; (c) mutated headers, mutated bytes, truncations "
+                 "asset that fails with Err or Ok(0) at request k for k = 0..119, and with 1-byte reads; (c) mutated headers, mutated bytes, truncations "
                  "and random strings; (d) field sweep: every header byte, chunk size byte and the first 8 data bytes of every chunk of well-formed SZX files "
                  "(48K stored and compressed, 128K compressed), the SNA headers and 128K trailer, TAP length fields, each set to 0,1,2,3,7,8,9,16,127,128,254,255. Non-trivial = the loader did not return Ok. After every case 20 frames are emulated (tapes: a fast-load request, "
                  "then real-time play)."),
